@@ -44,7 +44,8 @@ m = {
    {"name":"E-SWEEP","path":"harness/src/checks/c01.rs","serves_properties":["C01","C04","C05","C08","C16"],"kind_free_text":"exhaustive range / product enumeration through the real entry points"},
    {"name":"E-SEQ","path":"harness/src/explore.rs","serves_properties":["C02","C03","C06","C07","C09","C10","C11","C13","C15","C17","C18"],"kind_free_text":"stateless depth-bounded exhaustive sequence exploration of the real code (length-then-lexicographic, sharded)"},
    {"name":"E-STATE","path":"harness/src/checks/c12.rs","serves_properties":["C12"],"kind_free_text":"explicit-state BFS with fingerprints over the real DigitString"},
-   {"name":"E-SCHED","path":"harness/src/sched.rs","serves_properties":["C14"],"kind_free_text":"deviation-bounded exhaustive scheduler over real threads gated at call/callback boundaries"},
+   {"name":"E-SCHED","path":"harness/src/sched.rs","serves_properties":["C14"],"kind_free_text":"preemption-bounded exhaustive scheduler (CHESS-style re-execution) over real threads; scheduling points = call boundaries, library callbacks into harness code, every mutating DigitString operation (cfg-guarded yield hook)"},
+   {"name":"E-SCHED-SYNC","path":"shim/verif_sync.rs","serves_properties":["C14"],"kind_free_text":"the same scheduler on a generated copy of the library whose std::sync primitives are wrapped: a scheduling point before every synchronisation operation, lock acquisition by try_lock + blocked points, deadlock detection (harness-sync builds the harness against that copy)"},
  ],
  "checks": [],
  "not_applicable": [],
